@@ -194,8 +194,8 @@ structure StdEnv (env : Env) : Prop where
     DbgVmFaultType(args[1] & 0xff), args[2], args[3])`, as the translator renders it. -/
 def realFaultFields : List Expr :=
   [(.startArg 0), (.shr (.startArg 1) (.int 16)),
-   (.ite (.notE (.band (.shr (.startArg 1) (.int 8)) (.int 255))) (.singleton (.memberConst 42 0))
-     (.flagsOf 42 (.band (.shr (.startArg 1) (.int 8)) (.int 255)))),
+   (.ite (.band (.shr (.startArg 1) (.int 8)) (.int 255))
+     (.flagsOf 42 (.band (.shr (.startArg 1) (.int 8)) (.int 255))) (.singleton (.memberConst 42 0))),
    (.enumOf 6 (.band (.startArg 1) (.int 255))), (.startArg 2), (.startArg 3)]
 
 def isRealFaultDecoder (cls : String) (d : Decoder) : Bool :=
@@ -257,15 +257,13 @@ theorem eval_band_nat (c : Ctx) (a : Expr) (n m : Nat) (h : eval c a = .ok (.int
 
 theorem eval_toVmProt (c : Ctx) (h42 : c.tables.enums[42]? = some Gen.Enums.VmProtection) (x : Expr) (n : Nat)
     (hx : eval c x = .ok (.int n)) :
-    eval c (.ite (.notE x) (.singleton (.memberConst 42 0)) (.flagsOf 42 x)) = .ok (.members (vmProtMembers n)) := by
-  have hn : eval c (.notE x) = .ok (.bool (decide (n = 0))) := by
-    simp [eval, hx, bind, Except.bind, pure, Except.pure, truthy]
+    eval c (.ite x (.flagsOf 42 x) (.singleton (.memberConst 42 0))) = .ok (.members (vmProtMembers n)) := by
   have hs : eval c (.singleton (.memberConst 42 0)) = .ok (.members [⟨"VM_PROT_NONE", 0⟩]) := by
     simp only [eval, h42, bind, Except.bind, pure, Except.pure]; rfl
   have hf : eval c (.flagsOf 42 x) = .ok (.members (Gen.Enums.VmProtection.flagsOf n)) := by
     simp [eval, hx, h42, asNat, bind, Except.bind, pure, Except.pure]
   rw [eval]
-  simp only [hn, hs, hf, bind, Except.bind, truthy, vmProtMembers]
+  simp only [hx, hs, hf, bind, Except.bind, truthy, vmProtMembers]
   by_cases hz : n = 0 <;> simp [hz]
 
 theorem eval_faultType (c : Ctx) (h6 : c.tables.enums[6]? = some Gen.Enums.DbgVmFaultType) (x : Expr) (n : Nat)
